@@ -90,6 +90,20 @@ theorem Checked.roundtrip_ty {H : List PyTy} (c : Checked M E bad H) {T : Ty} {A
   obtain ⟨v, kk, hr, _⟩ := valid_rep M E bad c.structs c.int32 c.uint31 m n T A j hann hv hw
   exact c.of_reading hty ⟨v, kk, hr⟩
 
+/-- **C02 for metamodel-valid values**: there is a typed reading `v` of `j` (an object built by the constructors: class instances
+    at protocol-object nodes, the class of an alternative `j` is valid for at each union) — and *every* such reading serialises to
+    `j'` with `nrel A j j'`, `j'` structures again, and the second serialisation `j''` satisfies `nrel A j' j''`. -/
+theorem Checked.constructor_ty {H : List PyTy} (c : Checked M E bad H) {T : Ty} {A : PyTy} {n k m : Nat}
+    (hann : annOK M E bad n T A = true) (hty : lightOK E bad H k A = true) {j : Json}
+    (hv : validTyC M m T j = true) (hw : Wf j) :
+    (∃ v r, rep E bad r A v j = true) ∧
+    ∀ v r, rep E bad r A v j = true →
+      ∃ j' m', unstruct E m' Option.none v = .ok j' ∧ (∃ k, nrel E k A j j' = true) ∧
+        ∃ v'' m'', structTy E m'' A j' = .ok v'' ∧ (∃ k, rep E bad k A v'' j' = true) ∧
+          ∃ j'' m3, unstruct E m3 Option.none v'' = .ok j'' ∧ ∃ k, nrel E k A j' j'' = true := by
+  obtain ⟨v, kk, hr, _⟩ := valid_rep M E bad c.structs c.int32 c.uint31 m n T A j hann hv hw
+  exact ⟨⟨v, kk, hr⟩, fun v' r hr' => constructor_path E bad H c.progs c.classes c.classesU A k hty j v' r hr'⟩
+
 theorem Checked.roundtrip_struct {H : List PyTy} (c : Checked M E bad H) {s : Struct} (hs : s ∈ M.structures) {j : Json}
     (hv : validStructC M s j = true) (hw : Wf j) : RoundTrips E bad (.cls s.name) j := by
   obtain ⟨v, k, hr⟩ := valid_struct_rep M E bad c.structs c.int32 c.uint31 s hs vFuel j hv hw
